@@ -112,6 +112,31 @@ pub fn gen_req(r: &mut Rng, nonce: u64, versioned: bool) -> ErrReq {
             h2: None,
             plan: ReqPlan { nonce, head_method: false, expect: Expect::Ok { op: "ok".into() } },
         },
+        8 if r.chance(1, 3) => {
+            // a handler result the framework cannot serialize (as a success
+            // body, or as the body of a custom error type): a framework-made
+            // 500 whose internal message is the serializer's text
+            let secret = gen_token(r, nonce);
+            let t = if r.chance(1, 2) { "/unser" } else { "/cunser" };
+            ErrReq {
+                bytes: h1("GET", &format!("{t}?m={secret}"), nonce, steps, step_ms, None, versioned),
+                h2: None,
+                plan: ReqPlan {
+                    nonce,
+                    head_method: false,
+                    expect: Expect::ErrScript {
+                        refused: false,
+                        status: 500,
+                        message: Some("Internal Server Error".into()),
+                        error_code: Some(Some("Internal".into())),
+                        headers: vec![],
+                        secret,
+                        custom: false,
+                        ctor: format!("unserializable {t}"),
+                    },
+                },
+            }
+        }
         8 => {
             let (t, op) = if r.chance(1, 2) { ("/hdr", "hdr") } else { ("/ownid", "ownid") };
             ErrReq {
